@@ -8,6 +8,9 @@ import SSV.Proofs.PipeRefine
 import SSV.Proofs.PipeSuccs
 import SSV.Proofs.PipeTimeout
 import SSV.Proofs.PipeTerm
+import SSV.Proofs.PipeTermDL
+import SSV.Proofs.PipeFair
+import SSV.Proofs.PipeFairEx
 import SSV.Gen.C15
 /-
 C15 — the in-memory pipe (netio/pipe.go) is a faithful duplex stream with half-close and deadlines.
@@ -240,6 +243,83 @@ theorem quiescent_after_close_all_returned {s : State} (r : Reachable s) (hd : s
     obtain ⟨j, hj⟩ := no_deadlock_after_close r hd i (by simp [hp])
     exact canMove_istep j hj
 
+/-- ALL CALLS RETURN AFTER THE DEADLINES EXPIRED (whether or not the direction is closed), under every
+schedule: from a reachable state in which the current cancel channels of both the read and the write deadline are
+closed and no Set*Deadline call is pending, any run of `k` internal steps (no new calls) satisfies
+`k + measureE s' ≤ measureE s`.  No fairness assumption. -/
+theorem runs_bounded_after_deadline {N k : Nat} {s s' : State} (r : Reachable s) (hx : Expired s)
+    (hb : Bounded N s) (run : IRun s k s') : k + measureE N s' ≤ measureE N s :=
+  (run_boundedE run (inv_reachable r) hx hb).1
+
+/-- …and such a run can only stop when every call has returned and been collected. -/
+theorem quiescent_after_deadline_all_returned {s : State} (r : Reachable s) (hx : Expired s)
+    (hq : ¬ ∃ s', IStep s s') (i : Nat) : s.thr i = .idle := by
+  have inv := inv_reachable r
+  have canMove_istep : ∀ j, CanMove s j → ∃ s', IStep s s' := by
+    intro j hj
+    rcases hj with ⟨s', h⟩ | ⟨j', s', h | h⟩ | ⟨j', s', h | h⟩
+    · exact ⟨s', .loc j h⟩
+    · exact ⟨s', .data j j' h⟩
+    · exact ⟨s', .data j' j h⟩
+    · exact ⟨s', .count j j' h⟩
+    · exact ⟨s', .count j' j h⟩
+  -- every thread inside a call, other than a mutex waiter, can move
+  have moves : ∀ j, (match s.thr j with
+      | .idle | .rRet .. | .wRet .. | .uRet .. | .wLock _ => True
+      | _ => CanMove s j) := by
+    intro j
+    have h := no_stuck_state r j
+    have hg := inv.gens j
+    cases hp : s.thr j <;> simp only [hp] at h hg ⊢ <;> first
+      | trivial
+      | exact h
+      | exact h.2.2.1 (chanClosed_of_closed hg hx.rd)
+      | exact h.2.2.1 (chanClosed_of_closed hg hx.wd)
+  have h := no_stuck_state r i
+  have hm := moves i
+  cases hp : s.thr i
+  case idle => rfl
+  case rRet => exact absurd ⟨s.setT i .idle, .finish i (by simp [finish, hp])⟩ hq
+  case wRet => exact absurd ⟨s.setT i .idle, .finish i (by simp [finish, hp])⟩ hq
+  case uRet => exact absurd ⟨s.setT i .idle, .finish i (by simp [finish, hp])⟩ hq
+  case wLock b =>
+    exfalso; apply hq
+    simp only [hp] at h
+    rcases h with h | ⟨j, _, _, hj⟩
+    · exact canMove_istep i h
+    · have hj' := moves j
+      cases hq' : s.thr j <;> simp only [hq', PC.holds] at hj hj' <;> first
+        | exact canMove_istep j hj'
+        | simp at hj
+  all_goals
+    exfalso; apply hq
+    simp only [hp] at hm
+    exact canMove_istep i hm
+
+/-! ### progress before any close, under an explicit fairness assumption -/
+
+/-- A WRITE FACING READERS THAT KEEP READING RETURNS (no close, no deadline needed).  `r` is an infinite run of the
+model (`IsRun`: each position a model step or a stutter).  FAIRNESS ASSUMPTION, explicit: `WeakFair r j` — if from
+some position on writer `j` could always take part in a step, it eventually does.  ENVIRONMENT: whenever `j` offers
+in its select a reader sits in its select (`partner`), and the reader that is in the hand-shake with `j` took at
+least one byte of a non-empty offer (`pos`, i.e. readers use non-empty buffers).  Then from the loop head
+(`wEnter`, lock held) `j` returns: after finitely many rounds, each of which strictly shrinks what is left. -/
+theorem write_returns_fair {r : Nat → State} {j ci : Nat} (hr : IsRun r) (hf : WeakFair r j)
+    (partner : ∀ m b c g, (r m).thr j = .wSel b c ci g → ∃ i k acc gr, (r m).thr i = .rSel k acc gr)
+    (pos : ∀ m i k acc nr fail chunk b c, (r m).thr i = .rAck k acc nr fail chunk →
+      (r m).thr j = .wAwait b c ci → b ≠ [] → 1 ≤ nr)
+    (n : Nat) (b : Bytes) (c : Nat) (hp : (r n).thr j = .wEnter b c ci) :
+    ∃ m, n ≤ m ∧ ∃ c' e, (r m).thr j = .wRet c' e (some ci) :=
+  write_returns hr hf partner pos b.length n b c (Nat.le_refl _) hp
+
+/-- A READ FACING A WRITER RETURNS: run weakly fair towards reader `i`; whenever `i` sits in its select some writer
+sits in the write select; then `i` returns (through the hand-shake, or earlier through close / deadline). -/
+theorem read_returns_fair {r : Nat → State} {i : Nat} (hr : IsRun r) (hf : WeakFair r i)
+    (partner : ∀ m k acc g, (r m).thr i = .rSel k acc g → ∃ j b c ci gw, (r m).thr j = .wSel b c ci gw)
+    (n cap acc g : Nat) (hp : (r n).thr i = .rSel (.read cap) acc g) :
+    ∃ m, n ≤ m ∧ ∃ c e, (r m).thr i = .rRet c e :=
+  read_returns hr hf partner n cap acc g hp
+
 /-! ### half-close, close-read, deadlines -/
 
 /-- HALF CLOSE: after `CloseWrite` won the once-error (`done` closed, error = EOF): a `Read` that starts now
@@ -440,6 +520,16 @@ example : ∃ s', s' ∈ localSteps Ex.d4 1 ∧ (s'.thr 1).isTimeout = true ∧ 
 /-- a closed state with a pending call and a positive measure (`runs_bounded_after_close`) -/
 example : Reachable Ex.c3 ∧ Ex.c3.done = true ∧ Bounded 1 Ex.c3 ∧ measure 1 Ex.c3 = 1 ∧ IRun Ex.c3 0 Ex.c3 :=
   ⟨Ex.c3_reachable, by decide, Ex.c3_bounded, by decide, .nil⟩
+/-- both deadlines expired with a blocked reader, a blocked writer and a mutex waiter (`runs_bounded_after_deadline`) -/
+example : Reachable Ex.d6 ∧ Expired Ex.d6 ∧ Bounded 4 Ex.d6 ∧ Ex.d6.thr 1 = .rSel (.read 4) 0 0 ∧ Ex.d6.done = false :=
+  ⟨Ex.d6_reachable, Ex.d6_expired, Ex.d6_bounded, by decide, by decide⟩
+/-- concrete fair runs satisfying every hypothesis of `write_returns_fair` / `read_returns_fair` -/
+example : IsRun FairEx.run ∧ WeakFair FairEx.run 0 ∧ (FairEx.run 8).thr 0 = .wEnter [1, 2, 3] 0 0 :=
+  ⟨FairEx.run_isRun, FairEx.run_fair0, FairEx.run_at8⟩
+example : ∃ m, 8 ≤ m ∧ ∃ c' e, (FairEx.run m).thr 0 = .wRet c' e (some 0) :=
+  write_returns_fair FairEx.run_isRun FairEx.run_fair0 FairEx.run_partner FairEx.run_pos 8 _ _ FairEx.run_at8
+example : ∃ m, 9 ≤ m ∧ ∃ c e, (FairEx.run2 m).thr 1 = .rRet c e :=
+  read_returns_fair FairEx.run2_isRun FairEx.run2_fair1 FairEx.run2_partner 9 4 0 0 FairEx.run2_at9
 example : PReachable ⟨init, init⟩ := .init
 
 end SSV.C15
@@ -468,3 +558,7 @@ end SSV.C15
 #print axioms SSV.C15.pipe_faithful_duplex_partial
 #print axioms SSV.C15.runs_bounded_after_close
 #print axioms SSV.C15.quiescent_after_close_all_returned
+#print axioms SSV.C15.runs_bounded_after_deadline
+#print axioms SSV.C15.quiescent_after_deadline_all_returned
+#print axioms SSV.C15.write_returns_fair
+#print axioms SSV.C15.read_returns_fair
